@@ -89,6 +89,7 @@ Fixpoint texts_ok07 (t : template16) : bool :=
   | Block _ _ _ body :: r => body_ok07 body && texts_ok07 r
   | SigBlock _ _ body :: r => body_ok07 body && texts_ok07 r
   | TransBlock _ _ _ :: _ => false          (* nested transition blocks carry no USER tags in the shipped files; not admitted here *)
+  | EvBlock _ _ _ :: _ => false
   | MsgBlock _ _ _ _ :: _ => false
   | InitLine _ :: _ => false
   | TableLine _ _ :: _ => false
@@ -99,7 +100,7 @@ Fixpoint texts_ok07 (t : template16) : bool :=
 Definition has_ink (l : uline) : bool := existsb (fun g => match g with Lit s => negb (all_ws s) | _ => false end) l.
 Definition inky (t : template16) : bool :=
   forallb (fun it => match it with Block _ _ _ body => forallb has_ink body | SigBlock _ _ body => forallb has_ink body
-                         | TransBlock _ _ _ => false | MsgBlock _ _ _ _ => false | InitLine _ => false | TableLine _ _ => false | _ => true end) t.
+                         | TransBlock _ _ _ => false | EvBlock _ _ _ => false | MsgBlock _ _ _ _ => false | InitLine _ => false | TableLine _ _ => false | _ => true end) t.
 
 Definition in_grammar07 (t : template16) : bool := texts_ok07 t && inky t.
 
@@ -135,6 +136,7 @@ Fixpoint keys07 (e : elements) (t : template16) : list string :=
   | Block k _ _ body :: r => block_keys (table_of_kind k) (items_of e k) body ++ keys07 e r
   | SigBlock _ _ body :: r => block_keys sig_table (el_sigs e) body ++ keys07 e r
   | TransBlock _ _ _ :: r => keys07 e r
+  | EvBlock _ _ _ :: r => keys07 e r
   | MsgBlock _ _ _ _ :: r => keys07 e r
   | InitLine _ :: r => keys07 e r
   | TableLine _ _ :: r => keys07 e r
